@@ -6,4 +6,5 @@ pub fn exec(it: &mut Interp, toks: &[&str], out: &mut Vec<String>) -> bool {
         || crate::ext_c11::exec(it, toks, out)
         || crate::ext_c04::exec(it, toks, out)
         || crate::ext_bin::exec(it, toks, out)
+        || crate::ext_stat::exec(it, toks, out)
 }
